@@ -89,8 +89,9 @@ def gen_py_value(w, depth=3):
     return {w.choice(gen.KEY_POOL): gen_py_value(w, depth - 1) for _ in range(n)}
 
 
-def gen_workload(w, families=("json", "json", "json", "yaml", "xml", "xml", "csv", "plist", "py")):
-    """Two documents of one family; the second is a mutation of the first (0.7), independent (0.25) or equal."""
+def gen_workload(w, families=("json", "json", "json", "yaml", "xml", "xml", "csv", "plist", "py"), scale=1):
+    """Two documents of one family; the second is a mutation of the first (0.7), independent (0.25) or equal.
+    scale=2 (half of the thorough-tier cases) draws deeper and wider documents."""
     fam = w.choice(families)
     opts = {"allow_key_edits": w.random() < 0.8, "auto_match_keys": w.random() < 0.7,
             "allow_list_edits": w.random() < 0.85, "allow_list_edits_when_same_length": w.random() < 0.8}
@@ -112,7 +113,8 @@ def gen_workload(w, families=("json", "json", "json", "yaml", "xml", "xml", "csv
         if shape < 0.35:
             a = biased_lists(w)
         else:
-            a = gen.gen_container(w, w.choice([2, 3, 3, 4]), "plist" if fam == "plist" else "json", w.choice([3, 4, 5]))
+            a = gen.gen_container(w, w.choice([2, 3, 3, 4] if scale == 1 else [3, 4, 4, 5]),
+                                  "plist" if fam == "plist" else "json", w.choice([3, 4, 5] if scale == 1 else [4, 5, 7]))
         if rel < 0.7:
             b = gen.mutate(w, a, intensity=w.choice([1, 2, 3, 5]))
         elif rel < 0.95:
@@ -127,7 +129,7 @@ def gen_workload(w, families=("json", "json", "json", "yaml", "xml", "xml", "csv
         b = gen.mutate(w, a, intensity=w.choice([1, 2, 3])) if rel < 0.75 else \
             ([gen_py_value(w, 2) for _ in range(w.randint(1, 3))] if rel < 0.95 else a)
     elif fam == "xml":
-        a = gen.gen_xml(w, w.choice([1, 2, 2, 3]))
+        a = gen.gen_xml(w, w.choice([1, 2, 2, 3] if scale == 1 else [2, 3, 3, 4]))
         b = gen.mutate_xml(w, a) if rel < 0.7 else (gen.gen_xml(w, 2) if rel < 0.95 else a)
     else:  # csv: rows of string cells
         rows = w.randint(1, 4)
